@@ -991,7 +991,8 @@ def nontrivial(pid, sc, events):
 def execute(tb, scen, work, log, tag='run'):
     wd = os.path.join(work, tag)
     os.makedirs(wd, exist_ok=True)
-    traces, crashed = V.run_scenarios(tb, scen, wd, pkg='gobeansdb', runname='TestVerifProto', timeout=1500)
+    traces, crashed = V.run_scenarios(tb, scen, wd, pkg='gobeansdb', runname='TestVerifProto',
+                                      timeout=1500 if len(scen) < 5000 else 3600)
     if crashed:
         raise V.Inconclusive('harness process died: %s' % crashed[0][2][-1200:])
     return traces
